@@ -688,6 +688,9 @@ class Replay:
                 raise Divergence("C05", "invocation", "scheduler invoked in period %d" % self.bhv[self.cur]["obs"]["t"],
                                  "no invocation before pilots were applied at iteration %d" % self.sim.iteration,
                                  self.cur)
+            if kind == "reject":
+                raise Divergence("C04", "malformed_schedule_accepted", "the schedule is rejected with an exception, nothing changes",
+                                 "no exception: a period was applied at iteration %d" % self.sim.iteration, self.cur)
             raise Divergence("C01", "period", "next spec action %s" % kind,
                              "a period was applied at iteration %d" % self.sim.iteration, self.cur)
         self._consume()
